@@ -35,7 +35,8 @@ type Op struct {
 	Kind     string `json:"kind"` // start | reload | stop
 	Servers  int    `json:"servers"`
 	Graceful bool   `json:"graceful"`
-	Fail     string `json:"fail"` // "", parse, setup, makeservers, startup, listen, onrestart (this generation's restart callback will fail)
+	Fail     string `json:"fail"`               // "", parse, setup, makeservers, startup, listen, onrestart (this generation's restart callback will fail)
+	StopErr  bool   `json:"stop_err,omitempty"` // this generation's graceful servers report an error from Stop (after stopping)
 }
 
 type Case struct {
@@ -93,7 +94,11 @@ func runCase(c *Case) (nontrivial bool, err error) {
 		if failStage == "onrestart" {
 			failStage = "" // this generation itself is fine; reloading away from it will fail
 		}
-		text := lifecycle.Text(h.id, h.servers, h.graceful, op.Fail)
+		var opts []string
+		if op.StopErr {
+			opts = append(opts, "stoperr")
+		}
+		text := lifecycle.Text(h.id, h.servers, h.graceful, op.Fail, opts...)
 		var want []string
 		var wantServes []string
 		var opErr error
@@ -295,6 +300,7 @@ func genCase(t *rapid.T) *Case {
 			if op.Fail == "listen" && op.Servers == 0 {
 				op.Servers = 1
 			}
+			op.StopErr = op.Graceful && rapid.IntRange(0, 3).Draw(t, lb+"se") == 0
 		}
 		if op.Kind == "start" && (op.Fail == "" || op.Fail == "onrestart") {
 			live = true
@@ -333,8 +339,9 @@ func TestHistories(t *testing.T) {
 type sigCase struct {
 	Reloads []Op   `json:"reloads"` // reloads after the initial start (Instance.Restart)
 	Servers int    `json:"servers"`
-	Signal  string `json:"signal"` // sigterm | sigint
-	N       int    `json:"n"`      // how many signals are sent back to back
+	Signal  string `json:"signal"`            // sigterm | sigint | a mixed burst such as "sigint,sigterm"
+	N       int    `json:"n"`                 // how many signals are sent back to back
+	SlowMs  int    `json:"slow_ms,omitempty"` // the live instance's shutdown callback takes this long
 }
 
 var seq int64
@@ -344,7 +351,11 @@ func runSig(c *sigCase) (bool, error) {
 	os.MkdirAll(dir, 0o755)
 	defer os.RemoveAll(dir)
 	sc := &child.Script{Dir: dir, ServerType: "lifecycle"}
-	sc.Steps = append(sc.Steps, child.Step{Op: "load", Text: lifecycle.Text("g1", c.Servers, true, "")})
+	var opts []string
+	if c.SlowMs > 0 {
+		opts = append(opts, fmt.Sprintf("slow=%d", c.SlowMs))
+	}
+	sc.Steps = append(sc.Steps, child.Step{Op: "load", Text: lifecycle.Text("g1", c.Servers, true, "", opts...)})
 	liveGen := "g1"
 	failedOnce := false
 	for i, r := range c.Reloads {
@@ -356,19 +367,25 @@ func runSig(c *sigCase) (bool, error) {
 			failedOnce = true
 		}
 	}
-	sc.Steps = append(sc.Steps, child.Step{Op: c.Signal, N: c.N})
+	first := c.Signal
+	if strings.Contains(c.Signal, ",") {
+		sc.Steps = append(sc.Steps, child.Step{Op: "signals", Text: c.Signal})
+		first = strings.SplitN(c.Signal, ",", 2)[0]
+	} else {
+		sc.Steps = append(sc.Steps, child.Step{Op: c.Signal, N: c.N})
+	}
 	res, err := child.Spawn(sc, 30*time.Second)
 	if err != nil {
 		return false, fmt.Errorf("HARNESS: %v", err)
 	}
-	if !strings.Contains(res.Log, "[INFO] "+strings.ToUpper(c.Signal)+":") {
+	if !strings.Contains(res.Log, "[INFO] "+strings.ToUpper(first)+":") {
 		return false, fmt.Errorf("HARNESS: the process log shows no sign that casket's %s handler received the signal (exit code %d)", c.Signal, res.ExitCode)
 	}
 	for _, o := range res.Obs {
 		if o.Hung {
 			return true, fmt.Errorf("step %s hung: %s", o.Op, o.Blocked)
 		}
-		if o.Op == c.Signal && strings.Contains(o.Err, "still alive") {
+		if (o.Op == c.Signal || o.Op == "signals") && strings.Contains(o.Err, "still alive") {
 			return true, fmt.Errorf("the process was still alive 3s after %d x %s; events %v", c.N, c.Signal, res.Events)
 		}
 	}
@@ -405,6 +422,12 @@ func TestSignals(t *testing.T) {
 		c := &sigCase{Servers: rapid.IntRange(1, 2).Draw(t, "servers"), Signal: rapid.SampledFrom([]string{"sigterm", "sigterm", "sigint"}).Draw(t, "sig"), N: rapid.IntRange(1, 4).Draw(t, "n")}
 		if c.Signal == "sigint" {
 			c.N = 1 // a second SIGINT is the documented force-quit
+		}
+		if rapid.IntRange(0, 2).Draw(t, "mixed") == 0 {
+			// one SIGINT and SIGTERMs from the two different handlers, while a shutdown callback is still busy
+			c.Signal = rapid.SampledFrom([]string{"sigint,sigterm", "sigterm,sigint", "sigterm,sigint,sigterm", "sigint,sigterm,sigterm"}).Draw(t, "mix")
+			c.N = strings.Count(c.Signal, ",") + 1
+			c.SlowMs = rapid.SampledFrom([]int{100, 300}).Draw(t, "slow")
 		}
 		nr := rapid.IntRange(0, 3).Draw(t, "nreloads")
 		for i := 0; i < nr; i++ {
